@@ -71,32 +71,35 @@ Fixpoint sh_go (m : sh_mode) (cur : option bytes) (s : bytes) : option (list byt
 
 Definition sh_words (s : bytes) : option (list bytes) := sh_go ShUnq None s.
 
-(* An independent, words-free statement of "no unquoted metacharacter": a scanner that only
-   tracks the quote state and accepts, outside quotes, nothing but
+(* An independent, words-free statement of "no unquoted metacharacter": a scanner (a plain DFA
+   over the same three modes) that keeps no words and accepts, outside quotes, nothing but
      - shell_safe bytes,
      - the quote delimiters themselves,
-     - a backslash immediately followed by a single quote,
+     - a backslash IMMEDIATELY followed by a single quote,
      - blanks (space/tab/newline), only if [allow_blank].
-   [inq] = currently inside '...'.  The text must end outside quotes. *)
-Fixpoint no_meta_go (allow_blank inq : bool) (s : bytes) : bool :=
+   The text must end outside quotes (mode ShUnq).  Compared with [sh_go] it is stricter about
+   what may follow a backslash and does not care about NUL inside quotes. *)
+Fixpoint no_meta_go (allow_blank : bool) (m : sh_mode) (s : bytes) : bool :=
   match s with
-  | [] => negb inq
+  | [] => match m with ShUnq => true | _ => false end
   | b :: r =>
-      if inq then
-        (if b =? 39 then no_meta_go allow_blank false r
-         else no_meta_go allow_blank true r)
-      else if b =? 39 then no_meta_go allow_blank true r
-      else if b =? 92 then
-        match r with
-        | c :: r' => if c =? 39 then no_meta_go allow_blank false r' else false
-        | [] => false
-        end
-      else if sh_blank b then (if allow_blank then no_meta_go allow_blank false r else false)
-      else if shell_safe b then no_meta_go allow_blank false r
-      else false
+      match m with
+      | ShInQ =>
+          if b =? 39 then no_meta_go allow_blank ShUnq r
+          else no_meta_go allow_blank ShInQ r
+      | ShBsl =>
+          if b =? 39 then no_meta_go allow_blank ShUnq r else false
+      | ShUnq =>
+          if b =? 39 then no_meta_go allow_blank ShInQ r
+          else if b =? 92 then no_meta_go allow_blank ShBsl r
+          else if sh_blank b then
+            (if allow_blank then no_meta_go allow_blank ShUnq r else false)
+          else if shell_safe b then no_meta_go allow_blank ShUnq r
+          else false
+      end
   end.
 
-Definition no_meta (allow_blank : bool) (s : bytes) : bool := no_meta_go allow_blank false s.
+Definition no_meta (allow_blank : bool) (s : bytes) : bool := no_meta_go allow_blank ShUnq s.
 
 Example sh_words_ex1 : sh_words [97;32;32;39;98;32;99;39;100;9] = Some [[97];[98;32;99;100]].
 Proof. vm_compute. reflexivity. Qed.
@@ -111,4 +114,12 @@ Proof. vm_compute. reflexivity. Qed.
 Example sh_words_ex6 : sh_words [97;92] = None.
 Proof. vm_compute. reflexivity. Qed.
 Example sh_words_ex7 : sh_words [] = Some [].
+Proof. vm_compute. reflexivity. Qed.
+Example no_meta_ex1 : no_meta false [39;97;32;59;39;92;39;39;98;39] = true.   (* 'a ;'\''b' *)
+Proof. vm_compute. reflexivity. Qed.
+Example no_meta_ex2 : no_meta true [97;59;98] = false.
+Proof. vm_compute. reflexivity. Qed.
+Example no_meta_ex3 : no_meta false [97;32;98] = false.
+Proof. vm_compute. reflexivity. Qed.
+Example no_meta_ex4 : no_meta true [97;92;98] = false.
 Proof. vm_compute. reflexivity. Qed.
